@@ -12,7 +12,13 @@ SPEC = dict(
                "abstract step), and by the exact-frequency oracle, in debug and release builds.",
     level_note="Trusted: Coq kernel, translator (constants), harness/driver, pyref hashes (checked in C16). The slot layout of "
                "ReversePurgeItemHashMap (probing, drift states, back-shift deletion, iteration stride) is modelled, not verified: "
-               "its agreement with the abstract map is checked at run time on every generated history, not proved.",
+               "its agreement with the abstract map is checked at run time on every generated history, not proved. "
+               "c07_epsilon_2048_refuted is a witness of the abstract model; replayed on the crate (cases fi-eps2048-*): with the witness's "
+               "items 0..1536 the crate's sample has median 1 (maximum_error 1); with items chosen for their hashes the crate takes the "
+               "witness's sample and maximum_error = 100 > 3.5/2048 * N = 89.6 - outside C07's text (epsilon is claimed up to map size "
+               "1024), contrary to the crate's module documentation (known_findings.d/C07-freq-epsilon-2048.json). The oracle fails on any "
+               "PANIC other than new(max_map_size) with a size that is not a power of two, on observations of the wrong shape and on a "
+               "length mismatch between operations and observations; for uniform map sizes from 2048 it checks maximum_error <= N/512.",
     technique="Coq proof by induction over histories/merge trees (bracket invariant + potential argument) + differential "
               "correspondence (concrete table model == crate, lock-step refinement check concrete -> abstract)",
     trusted=["item hashes are supplied by tools/pyref.py (reference MurmurHash3, cross-checked in C16)",
